@@ -202,7 +202,14 @@ QueryOK(e) ==
     [] e.ev \in {"mmap", "meu", "bb"} -> Req("C12", OptOK(e))
     [] e.ev \in {"topvar", "mc", "wmcr", "wmcc", "wmcp", "json", "cnt"} -> TRUE     \* C ABI queries: judged by the twin only
 
+(* a numeric answer that is not exactly representable where the property demands an exact value *)
+PropOfQuery(e) == CASE e.ev \in {"wmc", "uwmc", "eval"} -> "C07"
+                    [] e.ev \in {"mmap", "meu", "bb"} -> "C12"
+                    [] e.ev = "semhash" -> "C11"
+                    [] e.ev \in {"mc", "wmcr", "wmcc", "wmcp"} -> TwinProp
+                    [] OTHER -> "C10"
 Query(e) ==
+  /\ Req(PropOfQuery(e), "inexact" \notin DOMAIN e)
   /\ QueryOK(e)
   /\ Req("C10", FreshAgrees(e))
   /\ IF "tev" \in DOMAIN e
